@@ -96,9 +96,16 @@ func (s *scripted) Read(p []byte) (int, error) {
 
 func planGen(total int) *rapid.Generator[[]step] {
 	return rapid.Custom(func(t *rapid.T) []step {
-		kind := rapid.IntRange(0, 5).Draw(t, "plankind")
+		kind := rapid.IntRange(0, 6).Draw(t, "plankind")
 		var plan []step
 		switch kind {
+		case 6: // a stuttering source: a zero-byte read in front of every small piece, for the whole stream (hundreds of
+			// zero-byte reads in all, never two in a row)
+			piece := rapid.SampledFrom([]int{1, 3, 16, 17}).Draw(t, "piece")
+			for got := 0; got < total && len(plan) < 4000; got += piece {
+				plan = append(plan, step{N: 0}, step{N: piece})
+			}
+			return plan
 		case 0: // full reads, EOF separately
 			return nil
 		case 1: // full reads, data with EOF
